@@ -12,13 +12,13 @@
 package c20
 
 import (
-	"context"
 	"encoding/json"
 	"fmt"
 	"os"
 	"sort"
 	"strings"
 	"sync"
+	"sync/atomic"
 	"time"
 
 	"github.com/blevesearch/bleve/v2"
@@ -484,12 +484,13 @@ func queryJSON(q *Q) json.RawMessage {
 }
 
 type checker struct {
-	r     *mc.Run
-	bk    *book
-	dbgMu sync.Mutex
-	dbg   map[string]int // outcome dump for debugging (C20_DEBUG_OUTCOMES=file)
-	advQ  sync.Map       // query text -> *Q: queries seen deviating under classAdvance
-	small []Doc          // Part Q documents occupying at most 3 internal documents, smallest first
+	r             *mc.Run
+	bk            *book
+	dbgMu         sync.Mutex
+	dbg           map[string]int // outcome dump for debugging (C20_DEBUG_OUTCOMES=file)
+	advQ          sync.Map       // query text -> *Q: queries seen deviating under classAdvance
+	small         []Doc          // Part Q documents occupying at most 3 internal documents, smallest first
+	nCmp, nEither atomic.Int64   // parent answers compared / left three-valued by the oracle
 	// searches in flight, for the hang watchdog
 	flight sync.Map // *inflight -> struct{}
 }
@@ -547,7 +548,7 @@ func symptomClass(kind string, q *Q, nested bool, layout string) string {
 }
 
 // search runs one request and returns the hit ids (nil, false when it was reported).
-func (ck *checker) search(idx bleve.Index, nested bool, lay string, q *Q, size int, score string, where func() map[string]any) (map[string]bool, uint64, bool) {
+func (ck *checker) search(idx bleve.Index, nested bool, lay, tie string, q *Q, size int, score string, where func() map[string]any) (map[string]bool, uint64, bool) {
 	req := bleve.NewSearchRequest(q.ToBleve())
 	req.Size = size
 	req.Score = score
@@ -561,7 +562,7 @@ func (ck *checker) search(idx bleve.Index, nested bool, lay string, q *Q, size i
 	ck.r.Eval(1)
 	// cost of a symptom example: query size, then request size (= corpus size)
 	report := func(class string, what func(rep map[string]any) string) {
-		ex := &example{cost: [3]int{q.nodes(), size, len(q.String())}, key: q.String() + score}
+		ex := &example{cost: [3]int{q.nodes(), size, len(q.String())}, key: q.String() + score + tie}
 		if !ck.bk.improves(class, ex) {
 			return
 		}
@@ -623,7 +624,7 @@ func (ck *checker) confirmAlone(q *Q, d Doc, nested bool, score string, wantHit 
 	idx := newMem(nested)
 	defer idx.Close()
 	chk(idx.Index("p", d.Data()))
-	got, _, ok := ck.search(idx, nested, "single-document", q, 5+d.size(), score, func() map[string]any {
+	got, _, ok := ck.search(idx, nested, "single-document", d.String(), q, 5+d.size(), score, func() map[string]any {
 		return map[string]any{"mapping": mappingName(nested), "docs": map[string]any{"p": d.Data()}, "query": queryJSON(q), "query_text": q.String(), "score": score}
 	})
 	if !ok {
@@ -632,7 +633,7 @@ func (ck *checker) confirmAlone(q *Q, d Doc, nested bool, score string, wantHit 
 	for id := range got {
 		if id != "p" {
 			class := symptomClass("non-parent-hit", q, nested, "single-document")
-			ex := &example{cost: [3]int{q.nodes(), 5 + d.size(), len(q.String())}, key: q.String() + score}
+			ex := &example{cost: [3]int{q.nodes(), 5 + d.size(), len(q.String())}, key: q.String() + score + d.String()}
 			if ck.bk.improves(class, ex) {
 				ex.replay = map[string]any{"mapping": mappingName(nested), "docs": map[string]any{"p": d.Data()}, "query": queryJSON(q), "query_text": q.String(), "score": score, "foreign_hit": id}
 				ex.detail = fmt.Sprintf("%s: hit %q is not a parent document %s", q, id, brief(ex.replay))
@@ -661,7 +662,7 @@ func (ck *checker) evalQ(c *corpus, b built, q *Q, score string, want []Tri) {
 		return map[string]any{"mapping": mappingName(nested), "layout": layoutName[layout], "corpus": c.name,
 			"docs": docs, "query": queryJSON(q), "query_text": q.String(), "score": score}
 	}
-	got, _, ok := ck.search(idx, nested, layoutName[layout], q, c.internal+5, score, where)
+	got, _, ok := ck.search(idx, nested, layoutName[layout], c.name, q, c.internal+5, score, where)
 	if !ok {
 		ck.outcome(mappingName(nested) + "|" + q.Kind + "|failed")
 		return
@@ -734,15 +735,19 @@ func (ck *checker) evalQ(c *corpus, b built, q *Q, score string, want []Tri) {
 					class = "non-parent-hit(not-the-raw-id-answer):" + mappingName(nested) + ":" + layoutName[layout]
 				}
 			}
-			ex := &example{cost: [3]int{q.nodes(), c.internal + 5, len(q.String())}, key: q.String() + score}
-			if ck.bk.improves(class, ex) {
-				// the hit id of an element starts with its parent's id: try that parent alone
-				// (the single-document search reports the smaller example itself)
-				if k := strings.Index(id, "_$"); k > 0 {
-					if pi, ok := c.pos[id[:k]]; ok {
+			// the hit id of an element starts with its parent's id: try that parent alone (the
+			// single-document search files the smaller example itself)
+			if k := strings.Index(id, "_$"); k > 0 {
+				if pi, ok := c.pos[id[:k]]; ok {
+					one := &example{cost: [3]int{q.nodes(), 5 + c.docs[pi].size(), len(q.String())}, key: q.String() + score + c.docs[pi].String()}
+					if ck.bk.improves(class, one) {
 						ck.confirmAlone(q, c.docs[pi], nested, score, false)
 					}
+					continue
 				}
+			}
+			ex := &example{cost: [3]int{q.nodes(), c.internal + 5, len(q.String())}, key: q.String() + score}
+			if ck.bk.improves(class, ex) {
 				ex.replay = where()
 				ex.replay["foreign_hit"] = id
 				ex.detail = fmt.Sprintf("%s: hit %q is not a live parent document %s", q, id, brief(ex.replay))
@@ -760,6 +765,8 @@ func (ck *checker) evalQ(c *corpus, b built, q *Q, score string, want []Tri) {
 		nb = 3 + nb*4/(len(c.ids)+1) // coarse bucket
 	}
 	ck.outcome(fmt.Sprintf("%s|%s|hits~%d|either=%v", mappingName(nested), q.Kind, nb, nEither > 0))
+	ck.nCmp.Add(int64(len(c.ids)))
+	ck.nEither.Add(int64(nEither))
 	if nEither > 0 {
 		r.Count("Q:searches_with_a_three-valued_parent", 1)
 	}
@@ -812,10 +819,13 @@ func partQ(r *mc.Run, ck *checker) {
 	r.Note("Q_parent_documents", ndocs)
 	r.Note("Q_corpora", len(corpora))
 	r.Note("Q_queries", map[string]int{"compounds_over_1-3_clauses": len(base), "as_clause_of_larger_query": len(wr)})
-	r.Sample(map[string]any{"part": "Q", "doc": fams[0].docs[len(fams[0].docs)/2].String(), "query": base[len(base)/2].String()})
-	r.Sample(map[string]any{"part": "Q", "doc": fams[2].docs[len(fams[2].docs)/2].String(), "query": wr[len(wr)/3].String()})
-	r.Sample(map[string]any{"part": "Q", "doc": fams[1].docs[len(fams[1].docs)/3].String(), "query": base[len(base)-7].String()})
-
+	sample := func(d Doc, q *Q) {
+		r.Sample(map[string]any{"part": "Q", "doc": d.String(), "query": q.String(),
+			"reference_nested": Expect(q, d.tree(), true).String(), "reference_flat": Expect(q, d.tree(), false).String()})
+	}
+	sample(Doc{Name: "x", Items: []Item{{K: "x", V: "x"}, {K: "y", V: "y"}}}, &Q{Kind: "conj", Subs: []*Q{T("items.k", "x"), T("items.v", "y")}})
+	sample(fams[2].docs[len(fams[2].docs)/2], wr[len(wr)/3])
+	sample(fams[1].docs[len(fams[1].docs)/3], &Q{Kind: "bool", Must: []*Q{T("items.k", "x")}, MustNot: []*Q{T("items.v", "x")}})
 	// shape statistics (vacuity): how many queries contain a known shape
 	nKnown := 0
 	for _, q := range qs {
@@ -916,446 +926,6 @@ func partQ(r *mc.Run, ck *checker) {
 }
 
 // ---------------------------------------------------------------------------------------------
-// Part H
-
-var versions = []Doc{
-	{Name: "x", Items: []Item{{K: "x", V: "x"}}},
-	{Name: "y", Items: []Item{{K: "x", V: "y"}, {K: "y", V: "x"}}, Tags: []Tag{{"x"}}},
-	{Name: "x", Items: []Item{{K: "y", V: "y"}, {K: "x", V: "y", Subs: []Sub{{"x", "y"}, {"y", "x"}}}, {K: "y", V: "x"}}, Tags: []Tag{{"y"}}, TagsFirst: true},
-}
-
-type op struct {
-	del bool
-	id  string
-	ver int
-}
-
-func (o op) String() string {
-	if o.del {
-		return "delete(" + o.id + ")"
-	}
-	return fmt.Sprintf("index(%s,v%d)", o.id, o.ver)
-}
-
-func alphabet(ids []string) []op {
-	var a []op
-	for _, id := range ids {
-		for v := range versions {
-			a = append(a, op{id: id, ver: v})
-		}
-		a = append(a, op{del: true, id: id})
-	}
-	return a
-}
-
-// observations made after every history
-var histQueries = []*Q{
-	{Kind: "all"},
-	T("items.k", "x"),
-	T("tags.t", "x"),
-	T("items.subs.a", "x"),
-	{Kind: "conj", Subs: []*Q{T("items.k", "x"), T("items.v", "x")}},
-	{Kind: "conj", Subs: []*Q{T("name", "x"), T("items.k", "y")}},
-	{Kind: "conj", Subs: []*Q{T("items.k", "y"), T("items.subs.a", "x")}},
-	{Kind: "conj", Subs: []*Q{T("items.subs.a", "x"), T("items.subs.b", "x")}},
-	{Kind: "disj", Subs: []*Q{T("name", "y"), T("items.subs.b", "x")}, Min: 1},
-}
-
-var versionTrees = func() []*tree {
-	for _, q := range histQueries {
-		q.prep()
-	}
-	var t []*tree
-	for _, v := range versions {
-		t = append(t, v.tree())
-	}
-	return t
-}()
-
-func modelKey(m map[string]int) string {
-	var ks []string
-	for id, v := range m {
-		ks = append(ks, fmt.Sprintf("%s=v%d", id, v))
-	}
-	sort.Strings(ks)
-	return "{" + strings.Join(ks, " ") + "}"
-}
-
-func histString(path []op) string {
-	var s []string
-	for _, o := range path {
-		s = append(s, o.String())
-	}
-	return strings.Join(s, " ")
-}
-
-// histClass names what went wrong structurally: the observation kind and the last
-// operation kind on the affected parent.
-func lastOpOn(path []op, id string) string {
-	var kinds []string
-	for _, o := range path {
-		if o.id != id {
-			continue
-		}
-		if o.del {
-			kinds = append(kinds, "delete")
-		} else {
-			kinds = append(kinds, "index")
-		}
-	}
-	if len(kinds) == 0 {
-		return "never-touched"
-	}
-	if len(kinds) == 1 {
-		return "after-first-" + kinds[0]
-	}
-	return "after-" + kinds[len(kinds)-2] + "-then-" + kinds[len(kinds)-1]
-}
-
-// observe compares every observation on idx with the model; stage names the physical
-// state ("mem", "disk:held", "disk:merged", "disk:reopened").
-func (ck *checker) observe(idx bleve.Index, model map[string]int, path []op, stage string) string {
-	r := ck.r
-	var sig strings.Builder
-	rep := func() map[string]any {
-		var ops []string
-		for _, o := range path {
-			ops = append(ops, o.String())
-		}
-		vs := map[string]any{}
-		for i, v := range versions {
-			vs[fmt.Sprintf("v%d", i)] = v.Data()
-		}
-		return map[string]any{"mapping": "nested", "history": ops, "versions": vs, "stage": stage, "model": modelKey(model),
-			"how": "apply the history one call per operation on a scorch index with the nested mapping, then observe"}
-	}
-	cost := [3]int{len(path), 0, 0}
-	n, err := idx.DocCount()
-	r.Eval(1)
-	if err != nil || int(n) != len(model) {
-		ck.bk.add("history:"+stageKind(stage)+":doccount", &example{cost: cost, key: histString(path),
-			detail: fmt.Sprintf("[%s] after %s: DocCount=%d err=%v, model has %d parents %s", stage, histString(path), n, err, len(model), modelKey(model)), replay: rep()})
-	}
-	fmt.Fprintf(&sig, "n=%d", n)
-	for _, q := range histQueries {
-		where := func() map[string]any { m := rep(); m["query"] = queryJSON(q); m["query_text"] = q.String(); return m }
-		got, _, ok := ck.search(idx, true, "history:"+stage, q, 40, "", where)
-		if !ok {
-			sig.WriteString("|failed")
-			continue
-		}
-		fmt.Fprintf(&sig, "|%d", len(got))
-		for id := range got {
-			if _, live := model[id]; !live {
-				ck.bk.add("history:"+stageKind(stage)+":dead-parent-returned:"+lastOpOn(path, id), &example{cost: cost, key: histString(path) + q.String(),
-					detail: fmt.Sprintf("[%s] after %s: %s returns %q which is not live (model %s)", stage, histString(path), q, id, modelKey(model)), replay: where()})
-			}
-		}
-		for id, v := range model {
-			want := Expect(q, versionTrees[v], true)
-			if want == Either || got[id] == (want == Yes) {
-				continue
-			}
-			kind := "live-parent-missing"
-			if got[id] {
-				kind = "stale-or-foreign-element-matched"
-			}
-			ck.bk.add("history:"+stageKind(stage)+":"+kind+":"+lastOpOn(path, id), &example{cost: cost, key: histString(path) + q.String(),
-				detail: fmt.Sprintf("[%s] after %s: %s: parent %s (now v%d = %s) hit=%v, reference %v", stage, histString(path), q, id, v, versions[v], got[id], want), replay: where()})
-		}
-	}
-	return sig.String()
-}
-
-func stageKind(stage string) string { return stage }
-
-func apply(idx bleve.Index, model map[string]int, o op) error {
-	if o.del {
-		delete(model, o.id)
-		return idx.Delete(o.id)
-	}
-	model[o.id] = o.ver
-	return idx.Index(o.id, versions[o.ver].Data())
-}
-
-func enumerate(alpha []op, depth int) [][]op {
-	var out [][]op
-	var rec func(cur []op)
-	rec = func(cur []op) {
-		if len(cur) > 0 {
-			out = append(out, append([]op{}, cur...))
-		}
-		if len(cur) == depth {
-			return
-		}
-		for _, o := range alpha {
-			rec(append(cur, o))
-		}
-	}
-	rec(nil)
-	sort.SliceStable(out, func(i, j int) bool { return len(out[i]) < len(out[j]) })
-	return out
-}
-
-type stateSet struct {
-	mu sync.Mutex
-	m  map[string]bool
-}
-
-func (s *stateSet) visit(r *mc.Run, k string) {
-	s.mu.Lock()
-	if !s.m[k] {
-		s.m[k] = true
-		r.State(1)
-	}
-	s.mu.Unlock()
-}
-
-func partHMem(r *mc.Run, ck *checker, states *stateSet) {
-	type cfg struct {
-		ids   []string
-		depth int
-	}
-	cfgs := mc.Pick(r, []cfg{{[]string{"p", "q"}, 3}, {[]string{"p", "q", "r"}, 3}}, []cfg{{[]string{"p", "q"}, 4}, {[]string{"p", "q", "r"}, 4}})
-	done := map[string]bool{}
-	var hs [][]op
-	for _, c := range cfgs {
-		for _, h := range enumerate(alphabet(c.ids), c.depth) {
-			k := histString(h)
-			if !done[k] {
-				done[k] = true
-				hs = append(hs, h)
-			}
-		}
-	}
-	r.Note("H_mem_histories", len(hs))
-	r.Sample(map[string]any{"part": "H", "history": histString(hs[len(hs)/2]), "observations": len(histQueries) + 1})
-	r.ParFor(len(hs), 0, func(i int) {
-		h := hs[i]
-		idx := newMem(true)
-		defer idx.Close()
-		model := map[string]int{}
-		for _, o := range h {
-			if err := apply(idx, model, o); err != nil {
-				ck.bk.add("history:mem:operation-error", &example{cost: [3]int{len(h)}, key: histString(h),
-					detail: fmt.Sprintf("%s failed in %s: %v", o, histString(h), err), replay: map[string]any{"history": histString(h)}})
-			}
-		}
-		r.Transition(1)
-		states.visit(r, modelKey(model))
-		sig := ck.observe(idx, model, h, "mem")
-		ck.outcome("H|mem|" + sig)
-		countHist(r, h)
-	})
-}
-
-func countHist(r *mc.Run, h []op) {
-	seen := map[string]int{} // 1 = live, 2 = deleted
-	reidx, delLive, recreate := false, false, false
-	for _, o := range h {
-		switch {
-		case o.del && seen[o.id] == 1:
-			delLive = true
-			seen[o.id] = 2
-		case o.del:
-		case seen[o.id] == 1:
-			reidx = true
-		case seen[o.id] == 2:
-			recreate = true
-			seen[o.id] = 1
-		default:
-			seen[o.id] = 1
-		}
-	}
-	if reidx {
-		r.Count("H:histories_updating_a_live_parent_across_segments", 1)
-	}
-	if delLive {
-		r.Count("H:histories_deleting_a_live_parent", 1)
-	}
-	if recreate {
-		r.Count("H:histories_recreating_a_deleted_parent", 1)
-	}
-}
-
-// merge gates: one registered callback per worker slot (the registry is a package-level map,
-// written only here, before any index exists).
-type gate struct {
-	mu   sync.Mutex
-	cond *sync.Cond
-	hold bool
-}
-
-const nGates = 8
-
-var gates [nGates]*gate
-
-func init() {
-	for i := range gates {
-		g := &gate{}
-		g.cond = sync.NewCond(&g.mu)
-		gates[i] = g
-		scorch.RegistryEventCallbacks[fmt.Sprintf("c20gate%d", i)] = func(e scorch.Event) bool {
-			if e.Kind == scorch.EventKindPreMergeCheck {
-				g.mu.Lock()
-				for g.hold {
-					g.cond.Wait()
-				}
-				g.mu.Unlock()
-			}
-			return true
-		}
-	}
-}
-
-func (g *gate) set(h bool) {
-	g.mu.Lock()
-	g.hold = h
-	g.cond.Broadcast()
-	g.mu.Unlock()
-}
-
-func quiesce(idx bleve.Index, needMerge bool) bool {
-	deadline := time.Now().Add(20 * time.Second)
-	for time.Now().Before(deadline) {
-		m, _ := idx.StatsMap()["index"].(map[string]interface{})
-		if m != nil && m["CurRootEpoch"] == m["LastPersistedEpoch"] && (!needMerge || m["CurRootEpoch"] == m["LastMergedEpoch"]) {
-			return true
-		}
-		time.Sleep(100 * time.Microsecond)
-	}
-	return false
-}
-
-func nSegments(idx bleve.Index) int {
-	adv, err := idx.Advanced()
-	if err != nil {
-		return -1
-	}
-	rd, err := adv.Reader()
-	if err != nil {
-		return -1
-	}
-	defer rd.Close()
-	if s, ok := rd.(*scorch.IndexSnapshot); ok {
-		return len(s.Segments())
-	}
-	return -1
-}
-
-func partHDisk(r *mc.Run, ck *checker, states *stateSet) {
-	type cfg struct {
-		ids   []string
-		depth int
-	}
-	c := mc.Pick(r, cfg{[]string{"p", "q"}, 3}, cfg{[]string{"p", "q", "r"}, 3})
-	hs := enumerate(alphabet(c.ids), c.depth)
-	if r.Quick() {
-		// quick: two versions per parent only (v1 with two elements + a tag, v2 with two levels)
-		var keep [][]op
-		for _, h := range hs {
-			ok := true
-			for _, o := range h {
-				if !o.del && o.ver == 0 {
-					ok = false
-				}
-			}
-			if ok {
-				keep = append(keep, h)
-			}
-		}
-		hs = keep
-	}
-	if !r.Quick() {
-		for _, h := range enumerate(alphabet([]string{"p", "q"}), 4) {
-			if len(h) == 4 {
-				hs = append(hs, h)
-			}
-		}
-	}
-	r.Note("H_disk_histories", len(hs))
-	base := mc.ScratchDir("c20")
-	defer bxRemove(base)
-	slots := make(chan int, nGates)
-	for i := 0; i < nGates; i++ {
-		slots <- i
-	}
-	r.ParFor(len(hs), nGates, func(i int) {
-		h := hs[i]
-		gi := <-slots
-		defer func() { slots <- gi }()
-		g := gates[gi]
-		dir := fmt.Sprintf("%s/h%d", base, i)
-		defer bxRemove(dir)
-		cfgm := map[string]interface{}{"eventCallbackName": fmt.Sprintf("c20gate%d", gi)}
-		g.set(true)
-		idx, err := bleve.NewUsing(dir, Mapping(true), scorch.Name, scorch.Name, cfgm)
-		if err != nil {
-			g.set(false)
-			panic(err)
-		}
-		model := map[string]int{}
-		for _, o := range h {
-			if err := apply(idx, model, o); err != nil {
-				ck.bk.add("history:disk:operation-error", &example{cost: [3]int{len(h)}, key: histString(h),
-					detail: fmt.Sprintf("%s failed in %s: %v", o, histString(h), err), replay: map[string]any{"history": histString(h)}})
-			}
-		}
-		r.Transition(1)
-		states.visit(r, modelKey(model))
-		if !quiesce(idx, false) {
-			r.Cap("a disk history did not become persisted within 20 s (inconclusive, skipped)")
-			g.set(false)
-			idx.Close()
-			return
-		}
-		seg0 := nSegments(idx)
-		s0 := ck.observe(idx, model, h, "disk:merges-held")
-		g.set(false)
-		adv, _ := idx.Advanced()
-		if sc, ok := adv.(*scorch.Scorch); ok {
-			ok2, pv, _ := mc.WithTimeout(30*time.Second, func() {
-				if err := sc.ForceMerge(contextBackground(), nil); err != nil {
-					ck.bk.add("history:disk:forcemerge-error", &example{cost: [3]int{len(h)}, key: histString(h),
-						detail: fmt.Sprintf("ForceMerge after %s: %v", histString(h), err), replay: map[string]any{"history": histString(h)}})
-				}
-			})
-			if !ok2 || pv != nil {
-				ck.bk.add("history:disk:forcemerge-hang-or-panic", &example{cost: [3]int{len(h)}, key: histString(h),
-					detail: fmt.Sprintf("ForceMerge after %s: returned=%v panic=%v", histString(h), ok2, pv), replay: map[string]any{"history": histString(h)}})
-				if !ok2 {
-					r.Cap("ForceMerge did not return")
-					return
-				}
-			}
-		}
-		if !quiesce(idx, true) {
-			r.Cap("a disk history did not settle after ForceMerge within 20 s (inconclusive, skipped)")
-			idx.Close()
-			return
-		}
-		seg1 := nSegments(idx)
-		s1 := ck.observe(idx, model, h, "disk:force-merged")
-		chk(idx.Close())
-		idx, err = bleve.OpenUsing(dir, cfgm)
-		if err != nil {
-			ck.bk.add("history:disk:reopen-error", &example{cost: [3]int{len(h)}, key: histString(h),
-				detail: fmt.Sprintf("reopen after %s: %v", histString(h), err), replay: map[string]any{"history": histString(h)}})
-			return
-		}
-		s2 := ck.observe(idx, model, h, "disk:reopened")
-		idx.Close()
-		if seg0 > 1 && seg1 < seg0 {
-			r.Count("H:disk_histories_where_force-merge_reduced_the_segment_count", 1)
-		}
-		if seg0 > 1 {
-			r.Count("H:disk_histories_observed_with_several_segments", 1)
-		}
-		ck.outcome(fmt.Sprintf("H|disk|%s|%s|%s", s0, s1, s2))
-	})
-}
-
-// ---------------------------------------------------------------------------------------------
 
 func Run(r *mc.Run) {
 	ck := &checker{r: r, bk: &book{}}
@@ -1399,6 +969,8 @@ func Run(r *mc.Run) {
 	}
 	partQ(r, ck)
 	lap("part_Q")
+	r.Count("Q:parent_answers_compared", ck.nCmp.Load())
+	r.Count("Q:parent_answers_three-valued(accepted_either_way)", ck.nEither.Load())
 	states := &stateSet{m: map[string]bool{}}
 	if !r.Expired() {
 		partHMem(r, ck, states)
@@ -1421,8 +993,6 @@ func Run(r *mc.Run) {
 		os.WriteFile(os.Getenv("C20_DEBUG_OUTCOMES"), []byte(strings.Join(ks, "\n")+"\n"), 0o644)
 	}
 }
-
-func contextBackground() context.Context { return context.Background() }
 
 func bxRemove(d string) {
 	if d != "" {
@@ -1490,7 +1060,7 @@ func (ck *checker) minimiseAdvance() {
 						"query": queryJSON(q), "query_text": q.String(), "score": "", "expected_hit_b": wb == Yes,
 						"how": "index a, then b (one Index call each) under props/c20.Mapping(true); run the query"}
 				}
-				got, _, ok := ck.search(idx, true, "two-documents", q, 5+a.size()+b.size(), "", rep)
+				got, _, ok := ck.search(idx, true, "two-documents", a.String()+b.String(), q, 5+a.size()+b.size(), "", rep)
 				idx.Close()
 				if !ok || got["b"] == (wb == Yes) || ra.parentHit == got["b"] {
 					continue
